@@ -114,7 +114,7 @@ inductive Tag where
   | borrowed         -- ChannelBorrowedError
   | invalidRetcode
   | other
-  deriving Repr, BEq, DecidableEq, Inhabited
+  deriving Repr, DecidableEq, Inhabited
 
 def Tag.name : Tag → String
   | .ended => "ended" | .timeout => "timeout" | .hang => "hang" | .illegal => "illegal"
@@ -128,7 +128,7 @@ inductive TRes where
   | term (rc : Nat) (out : List Char)
   | out (out : List Char)
   | err (t : Tag)
-  deriving Repr, BEq, Inhabited
+  deriving Repr, DecidableEq, Inhabited
 
 /-- how the `with` block was left -/
 inductive ExitTag where
@@ -136,7 +136,7 @@ inductive ExitTag where
   | runtime          -- RuntimeError of `_assert_end`
   | body             -- the exception raised by the body, unchanged
   | notEntered       -- `run()` itself raised
-  deriving Repr, BEq, DecidableEq, Inhabited
+  deriving Repr, DecidableEq, Inhabited
 
 structure Case where
   ash : Bool
